@@ -22,7 +22,7 @@ WANT = {"C06"}
 def floors(ctx):
     f = {"evaluations": 3000 if ctx.tier == "quick" else 30000,
          "graphs_with_selfloop": 1, "graphs_with_parallel": 1, "graphs_with_mixed_kinds": 1,
-         "graphs_with_bridge_out_of_universe": 1, "graphs_with_former_members": 20, "graphs_with_former_links": 20, "ff_result_removed_something": 20,
+         "graphs_with_bridge_out_of_universe": 1, "graphs_with_former_members": 20, "graphs_with_former_links": 20, "graphs_with_links_filed_under_universes": 20, "ff_result_removed_something": 20,
          "cases_partial_reach": 50, "cases_expect_notimplemented": 5,
          "cases_retraversed_after_in_place_edit": 100, "interleaved_generator_pairs": 1000 if "C06" in WANT else 0}
     for d in oracles.DIR_NAMES:
